@@ -4,7 +4,7 @@
    Specification: spec/AccessSpec.v ([Readable] / [Writable], written from the property text).
    A store is acyclic when some rank decreases along every reference; the fuel F exceeds every rank.
    [iv s F st m] / [bv s F st m] are the current values of node m (number / boolean) in state st. *)
-From Cam Require Import Outcome Access AccessSpec AccessAnswer P_C18 P_C18b P_C18c.
+From Cam Require Import Outcome Access AccessSpec AccessAnswer P_C18 P_C18b P_C18c AccessOps AccessSrc P_C18s.
 Local Open Scope nat_scope.
 
 (* reported readable exactly when implemented, available, the imposed and register access modes
@@ -265,3 +265,51 @@ Theorem C18_enum_target_refuted : exists s rank F st n,
   is_writable pinned_cfg s F st n = Ok false /\ Writable s (iv s F st) (bv s F st) n.
 Proof. exact enum_target_refuted. Qed.
 Print Assumptions C18_enum_target_refuted.
+
+(* ---- the code itself: gen/AccessSrc.v is regenerated on every run (tools/translate_access.py) from
+   NodeElementBase::{is_readable, is_writable, is_locked, is_implemented, is_available} (genapi/src/node_base.rs) and
+   RegisterBase::{is_readable, is_writable} (register_base.rs), to which IntReg / MaskedIntReg / FloatReg / StringReg
+   are checked to delegate; [bfi] is any behaviour of bool_from_id on the nodes asked. *)
+Theorem C18_controls_from_source : forall bfi nd,
+  src_is_implemented bfi nd = ctlq bfi (p_impl nd) true /\
+  src_is_available bfi nd = ctlq bfi (p_avail nd) true /\
+  src_is_locked bfi nd = ctlq bfi (p_lock nd) false.
+Proof. exact controls_from_source. Qed.
+Print Assumptions C18_controls_from_source.
+
+Theorem C18_base_readable_from_source : forall bfi nd, src_base_is_readable bfi nd = base_r bfi nd.
+Proof. exact base_r_from_source. Qed.
+Print Assumptions C18_base_readable_from_source.
+
+Theorem C18_base_writable_from_source : forall bfi nd, src_base_is_writable bfi nd = base_w bfi nd.
+Proof. exact base_w_from_source. Qed.
+Print Assumptions C18_base_writable_from_source.
+
+Theorem C18_register_access_from_source : forall bfi nd,
+  src_reg_is_readable bfi nd = andl (base_r bfi nd) (Ok (not_wo (regmode nd))) /\
+  src_reg_is_writable bfi nd = andl (base_w bfi nd) (Ok (not_ro (regmode nd))).
+Proof. intros bfi nd. split; [apply reg_r_from_source|apply reg_w_from_source]. Qed.
+Print Assumptions C18_register_access_from_source.
+
+(* of the translated code alone: implemented, then available, then locked are asked in this order, each only when
+   the earlier ones answered Ok(true); the first control that fails or errs decides the answer *)
+Theorem C18_source_write_order : forall bfi nd,
+  match src_is_implemented bfi nd with
+  | Ok true =>
+    match src_is_available bfi nd with
+    | Ok true =>
+      match src_is_locked bfi nd with
+      | Ok l => src_base_is_writable bfi nd = Ok (negb l && mode_in [WO; RW] (imposed nd))
+      | Err e => src_base_is_writable bfi nd = Err e
+      | Panic => src_base_is_writable bfi nd = Panic
+      end
+    | Ok false => src_base_is_writable bfi nd = Ok false
+    | Err e => src_base_is_writable bfi nd = Err e
+    | Panic => src_base_is_writable bfi nd = Panic
+    end
+  | Ok false => src_base_is_writable bfi nd = Ok false
+  | Err e => src_base_is_writable bfi nd = Err e
+  | Panic => src_base_is_writable bfi nd = Panic
+  end.
+Proof. exact source_write_order. Qed.
+Print Assumptions C18_source_write_order.
